@@ -58,6 +58,7 @@ class Image:
         self.rootblk = (nblocks + 1) // 2 if amiga_root else nblocks // 2
         self.used = {0, 1, self.rootblk}
         self.dbs = 512 if ffs else 488
+        self.want_block2 = False
         self.root = Dir(b"")
         self.root.block = self.rootblk
         self.next_seq = self.rootblk + 1
@@ -108,6 +109,9 @@ class Image:
             node.exts = []
             for i in range(nd):
                 if i >= 72 and (i - 72) % 72 == 0: node.exts.append(self.alloc())
+                if self.want_block2 and i == 1 and 2 not in self.used:
+                    # volume block 2 is an ordinary block: now and then the second data block of a file lives there
+                    self.want_block2 = False; self.used.add(2); node.datablocks.append(2); continue
                 node.datablocks.append(self.alloc())
         if node.kind == 'dir':
             if self.dirc: node.cache = [self.alloc()]
